@@ -278,8 +278,30 @@ def r_clipsym(idx, rep, modules, rule="R-CLIPSYM", floor=4):
                 while isinstance(base, ast.Subscript):
                     base = base.value
                 return isinstance(base, ast.Name) and base.id in params
+            def as_clip(c_):
+                """(x, lo, hi) of a clamp however it is written, else None"""
+                if isinstance(c_, ast.Call) and call_name(c_) == "np.clip" and len(c_.args) == 3:
+                    return tuple(c_.args)
+                if isinstance(c_, ast.Call) and call_name(c_) in ("min", "np.minimum") and len(c_.args) == 2:
+                    for inner, hi_ in ((c_.args[0], c_.args[1]), (c_.args[1], c_.args[0])):
+                        if isinstance(inner, ast.Call) and call_name(inner) in ("max", "np.maximum") and len(inner.args) == 2:
+                            for x_, lo_ in ((inner.args[0], inner.args[1]), (inner.args[1], inner.args[0])):
+                                if isinstance(lo_, ast.UnaryOp) and isinstance(lo_.op, ast.USub):
+                                    return (x_, lo_, hi_)
+                if isinstance(c_, ast.Call) and call_name(c_) in ("max", "np.maximum") and len(c_.args) == 2:
+                    for inner, lo_ in ((c_.args[0], c_.args[1]), (c_.args[1], c_.args[0])):
+                        if isinstance(inner, ast.Call) and call_name(inner) in ("min", "np.minimum") and len(inner.args) == 2 and isinstance(lo_, ast.UnaryOp) and isinstance(lo_.op, ast.USub):
+                            for x_, hi_ in ((inner.args[0], inner.args[1]), (inner.args[1], inner.args[0])):
+                                if u(hi_) == u(lo_.operand) or isinstance(hi_, (ast.Subscript, ast.Name)):
+                                    return (x_, lo_, hi_)
+                return None
             for c in ast.walk(f.node):
-                if isinstance(c, ast.Call) and call_name(c) == "np.clip" and len(c.args) == 3:
+                clip_ = as_clip(c)
+                if clip_ is not None and (call_name(c) == "np.clip" or (isinstance(clip_[2], (ast.Subscript, ast.Name)) and is_half(clip_[2]))):
+                    class _C:          # the clamp in np.clip form: the clauses below read args[0..2]
+                        args = list(clip_)
+                        lineno = c.lineno
+                    c_orig, c = c, _C
                     k += 1
                     key = "%s|np.clip #%d symmetric half-size interval" % (f.key, k)
                     where = "%s:%d" % (m.relpath, c.lineno)
@@ -293,7 +315,7 @@ def r_clipsym(idx, rep, modules, rule="R-CLIPSYM", floor=4):
                                 sym = True
                     half = is_half(hi)
                     rep.check(sym and half, rule, key, where,
-                              "`%s`: %s" % (u(c)[:90], "the lower bound is not the negation of the upper bound" if not sym else
+                              "`%s`: %s" % (u(c_orig)[:90], "the lower bound is not the negation of the upper bound" if not sym else
                                             "the upper bound is not half of a size parameter (0.5 * size): the shape is centred in its frame, its extent is +-size/2"),
                               "[-h, +h], h = half size")
                     # the clipped coordinates and the bound select the SAME components: x[I] against h[I]
@@ -316,7 +338,7 @@ def r_clipsym(idx, rep, modules, rule="R-CLIPSYM", floor=4):
                     if sx is not None and sh is not None:
                         rep.check(sx == sh, rule, "%s|np.clip #%d coordinates and bound select the same components" % (f.key, k), where,
                                   "`%s` clips the components [%s] against the half sizes of the components [%s]: each coordinate is bounded by the extent of ITS OWN axis "
-                                  "(numpy broadcasting hides the mismatch)" % (u(c)[:100], sx, sh), "[%s]" % sx)
+                                  "(numpy broadcasting hides the mismatch)" % (u(c_orig)[:100], sx, sh), "[%s]" % sx)
 
 
 CENTRED = ("cylinder", "capsule", "box", "rectangle")
